@@ -95,3 +95,25 @@ pub fn check_bom_removed<const N: usize, const P: usize>(raw: &[u8]) -> Outcome 
     core::mem::forget(r);
     Outcome::Pass
 }
+
+/// K3: the refinement table of `EncodingRef` (which of implicit / explicit / BOM / declaration may still be
+/// overridden) equals the documented automaton: Implicit and BomDetected can be refined, Explicit (a reader
+/// built from a string) and XmlDetected cannot; the wrapped encoding is returned unchanged.
+/// raw: [kind, which]
+pub fn check_refine_table(raw: &[u8]) -> Outcome {
+    let kind = raw[0];
+    require!(kind <= 3);
+    let enc: &'static encoding_rs::Encoding = match raw[1] & 3 {
+        0 => encoding_rs::UTF_8,
+        1 => encoding_rs::UTF_16LE,
+        2 => encoding_rs::UTF_16BE,
+        _ => encoding_rs::WINDOWS_1251,
+    };
+    let (refinable, got) = quick_xml::reader::verif_encoding_ref(kind, enc);
+    let want = kind == 0 || kind == 2;
+    ensure!(refinable == want, "C17: only an implicit or BOM-detected encoding can be overridden; an explicit (from_str) or declared one is final");
+    ensure!(got == enc, "C17: the active encoding is the one recorded by the winning source");
+    witness!(kind == 1 && !refinable, "explicit is final");
+    witness!(kind == 2 && refinable, "bom can be refined");
+    Outcome::Pass
+}
